@@ -32,6 +32,7 @@ struct elem {
 
 enum { M_LOOKUP, M_ENUM, M_INCR };
 static int mode;
+static int under_memcheck(void);
 
 static struct elem *pool[MAXE];
 static int npool, nkeys, ntab;
@@ -813,7 +814,7 @@ static void run_random(uint64_t idx)
     nk = 1 + vrt_below(&g, 12);
     np = (idx % 3 == 0) ? 200 + vrt_below(&g, 312) : 4 + vrt_below(&g, 60);
     maxb = (idx % 5 == 0) ? 64 : 9;
-    nops = vrt_thorough ? 8000 : 2500;
+    nops = under_memcheck() ? 600 : vrt_thorough ? 8000 : 2500;
     vrt_case_note("random tables=%d keys=%d pool=%d buckets<=%d ops=%d mode=%s", nt, nk, np, maxb, nops, vrt_mode);
     st_create(SCOPE(nt, nk, np));
     nprobe_per_table = mode == M_ENUM ? 7 : 1;
@@ -862,12 +863,16 @@ static void run_random(uint64_t idx)
     VRT_COUNT("random.histories");
 }
 
-static uint64_t nrandom(void) { return vrt_thorough ? 20000 : 1500; }
+/* under valgrind (config rel-plain: uninitialised reads, which ASan does not see) the workload is a
+ * small slice: three small closure scopes and a few dozen short random histories */
+static int under_memcheck(void) { return strcmp(vrt_config, "rel-plain") == 0; }
+static uint64_t nrandom(void) { return under_memcheck() ? 48 : vrt_thorough ? 20000 : 1500; }
 static uint64_t ncases(void)
 {
     mode = !strcmp(vrt_mode, "enum") ? M_ENUM : !strcmp(vrt_mode, "incr") ? M_INCR : M_LOOKUP;
-    if (vrt_thorough) { scopes = thorough_scopes; nscopes = sizeof(thorough_scopes) / sizeof(scopes[0]); }
+    if (vrt_thorough && !under_memcheck()) { scopes = thorough_scopes; nscopes = sizeof(thorough_scopes) / sizeof(scopes[0]); }
     else { scopes = quick_scopes; nscopes = sizeof(quick_scopes) / sizeof(scopes[0]); }
+    if (under_memcheck()) nscopes = 3;
     return nscopes + nrandom();
 }
 static void run_case(uint64_t idx)
